@@ -76,6 +76,8 @@ func fqEval(input any, expr string) (out any, err error) {
 	x := eng.get()
 	ctx, cancel := context.WithTimeout(context.Background(), 60*time.Second)
 	defer cancel()
+	guardSet(cancel)
+	defer guardClear()
 	defer func() {
 		if r := recover(); r != nil {
 			err = fmt.Errorf("panic: %v", r)
@@ -365,7 +367,6 @@ func (o obs) String() string {
 }
 
 func refRun(prog string, input any) (o obs) {
-	curProg.Store(prog + "  INPUT " + show(input))
 	q, err := gojq.Parse(prog)
 	if err != nil {
 		o.Compile = true
@@ -383,6 +384,8 @@ func refRun(prog string, input any) (o obs) {
 	}()
 	ctx, cancel := context.WithTimeout(context.Background(), 8*time.Second)
 	defer cancel()
+	guardSet(cancel)
+	defer guardClear()
 	iter := code.RunWithContext(ctx, input)
 	for n := 0; ; n++ {
 		v, ok := iter.Next()
@@ -557,6 +560,7 @@ func TestRoundTrip(t *testing.T) {
 		return
 	}
 	defer eng.close()
+	defer func() { harness.ExtraAdd("memory_guard_hits", guardHits.Swap(0)) }()
 	// totals are batches
 	harness.Rapid(t, 2400, 40000, func(rt *rapid.T, c *harness.Case) {
 		inputs := []any{jqgen.Value(rt, 2), nil}
@@ -789,6 +793,7 @@ func TestRewrite(t *testing.T) {
 		return
 	}
 	defer eng.close()
+	defer func() { harness.ExtraAdd("memory_guard_hits", guardHits.Swap(0)) }()
 	expr := rewriteExpr()
 	harness.Rapid(t, 1600, 24000, func(rt *rapid.T, c *harness.Case) {
 		inputs := []any{jqgen.Value(rt, 2), []any{1, map[string]any{"a": 2}}, nil}
